@@ -29,10 +29,10 @@ type fClock struct{ ns atomic.Int64 }
 
 var fT0 = time.Date(2026, 3, 1, 12, 0, 0, 0, time.UTC)
 
-func (c *fClock) Now() time.Time        { return fT0.Add(time.Duration(c.ns.Load())) }
-func (c *fClock) add(d time.Duration)   { c.ns.Add(int64(d)) }
-func (c *fClock) set(d time.Duration)   { c.ns.Store(int64(d)) }
-func (c *fClock) since() time.Duration  { return time.Duration(c.ns.Load()) }
+func (c *fClock) Now() time.Time       { return fT0.Add(time.Duration(c.ns.Load())) }
+func (c *fClock) add(d time.Duration)  { c.ns.Add(int64(d)) }
+func (c *fClock) set(d time.Duration)  { c.ns.Store(int64(d)) }
+func (c *fClock) since() time.Duration { return time.Duration(c.ns.Load()) }
 
 // frontWorld is a complete in-process hookaido front end built exactly like run(): real
 // Parse/Compile, newRuntimeState, loadAuth, startServers; the HTTP handlers are taken from the
